@@ -60,6 +60,7 @@ struct Obj {
 	int rfd = -1, wfd = -1; bool reg = false; int fprio = 0; int events = 0; int64_t bytes = 0; bool peer_closed = false;
 	bool neg_pending = false; uint32_t neg_gen = 0; int neg_fd = -1;   // the callback closed its descriptor and will return a negative value
 	bool retneg_armed = false; int64_t ready_since = -1; int64_t fdl = -1; bool always_ready = false;
+	bool fdl_at_poll = false;            // the descriptor joins its level's queue at the next poll: everything queued until then is ahead of it
 	// signal handler
 	qb_loop_signal_handle sh = NULL; bool sreg = false; int sprio = 0; int signo = 0; int must = 0, may = 0; int64_t s_since = -1; int64_t sdl = -1;
 };
@@ -168,7 +169,7 @@ static Reg *new_cookie(Obj &o)
 }
 static void fd_mark_ready(Obj &o)
 {
-	if (o.reg && o.ready_since < 0 && (o.bytes > 0 || o.peer_closed)) { o.ready_since = L.iter; o.fdl = deadline(o.fprio) + 1; }
+	if (o.reg && o.ready_since < 0 && (o.bytes > 0 || o.peer_closed)) { o.ready_since = L.iter; o.fdl = deadline(o.fprio) + 1; o.fdl_at_poll = true; }
 }
 
 static void fire_triggers(Obj &o)
@@ -645,6 +646,10 @@ static void on_epoll_wait(int timeout)
 		any_rep = true;
 		if (o.first_iter_expired < 0 && o.expiry < now) { o.first_iter_expired = L.iter; o.tdl = deadline(o.tprio); }
 	}
+	for (size_t i = 0; i < L.objs.size(); i++) {
+		Obj &o = L.objs[i];
+		if (o.type == O_FD && o.reg && o.ready_since >= 0 && o.fdl_at_poll) { o.fdl_at_poll = false; int64_t d = deadline(o.fprio) + 1; if (d > o.fdl) o.fdl = d; }
+	}
 	if (timeout == 50 && L.jobs_pending_total > 0) count(p_throttle50);
 	if (any_rep && !L.stopped) {
 		// C09: while a timer is pending the loop never blocks indefinitely and never past the earliest
@@ -664,6 +669,17 @@ static void on_epoll_wait(int timeout)
 	if ((L.iter & 3) == 0 || L.iter >= L.max_iter) {
 		for (size_t i = 0; i < L.objs.size() && !failed(); i++) {
 			Obj &o = L.objs[i];
+			// C10 judges the same per-item bounds under continuous load ("an item pending at any priority is dispatched
+			// within a bounded number of loop iterations"): FIFO within a level, four items per turn, a turn at least
+			// every third iteration
+			if (which == 10) {
+				if (o.type == O_JOB && !o.jpend.empty() && L.iter > o.jdl.front())
+					VIOL(10, "item-starved", "qb_loop_run", "job %d has been pending for %lld iterations at level %d (bound %lld)", o.id, (long long)(L.iter - o.jsince.front()), o.jprio, (long long)(o.jdl.front() - o.jsince.front()));
+				if (o.type == O_FD && o.reg && o.ready_since >= 0 && L.iter > o.fdl)
+					VIOL(10, "item-starved", "qb_loop_run", "descriptor object %d has been ready for %lld iterations at level %d without its callback running (bound %lld)", o.id, (long long)(L.iter - o.ready_since), o.fprio, (long long)(o.fdl - o.ready_since));
+				if (o.type == O_TIMER && o.tpend && !o.unrep && o.first_iter_expired >= 0 && L.iter > o.tdl)
+					VIOL(10, "item-starved", "qb_loop_run", "timer %d at level %d not dispatched %lld iterations after the loop first woke past its expiry (bound %lld)", o.id, o.tprio, (long long)(L.iter - o.first_iter_expired), (long long)(o.tdl - o.first_iter_expired));
+			}
 			if (o.type == O_JOB && !o.jpend.empty() && L.iter > o.jdl.front())
 				VIOL(8, "job-not-run", "qb_loop_run", "job %d has been pending for %lld iterations (allowed %lld)", o.id, (long long)(L.iter - o.jsince.front()), (long long)(o.jdl.front() - o.jsince.front()));
 			if (o.type == O_FD && o.reg && o.ready_since >= 0 && L.iter > o.fdl)
@@ -764,6 +780,10 @@ static void gen(const char *prop, RunSpec &spec)
 	p.set("mono_base", (int64_t)base);
 	if (w == 10) {
 		int nj = (int)r.range(0, 4), nt = (int)r.range(0, 3), nf = (int)r.range(0, 3);
+		// now and then many always-ready descriptors, all at one level (more than one turn's worth)
+		bool manyfd = r.chance(1, 5);
+		int fdprio = (int)r.below(3);
+		if (manyfd) nf = (int)r.range(4, 9);
 		if (nj + nt + nf == 0) nj = 2;
 		p.set("njobs", nj); p.set("ntimers", nt); p.set("nfds", nf); p.set("nsigs", 0);
 		static const int64_t MI[] = { 50, 200, 1000, 5000, 30000, 100000 };
@@ -775,7 +795,7 @@ static void gen(const char *prop, RunSpec &spec)
 		for (int k = 0; k < nf; k++) {
 			p.add(0, K_FD_OPEN, -1, 0, nj + nt + k);
 			p.add(0, K_FD_WRITE, -1, 0, nj + nt + k, 3);
-			p.add(0, K_FD_ADD, -1, 0, nj + nt + k, r.below(3));
+			p.add(0, K_FD_ADD, -1, 0, nj + nt + k, manyfd && r.chance(5, 6) ? fdprio : r.below(3));
 		}
 		// finite bursts on top
 		int nb = (int)r.range(0, 12);
